@@ -54,6 +54,7 @@ class Query:
     functions: list = field(default_factory=list)  # real functions encoded
     expect: str = "hold"      # "hold": must verify; "known": dedicated harness of a known finding
     known_id: str | None = None
+    known_where: list = field(default_factory=list)   # a known finding only covers failed checks whose "description @ location" contains one of these
     mem_gb: int = 16
     solver: str | None = None
     field_sens: int | None = None   # CBMC --max-field-sensitivity-array-size (None: FIELD_SENS)
